@@ -77,7 +77,7 @@ def expand_refs(spec, up=None):
 
 
 def model_case(case):
-    c = {k: v for k, v in case.items() if k not in ("rawkey", "_tag", "cbkind")}
+    c = {k: v for k, v in case.items() if k not in ("rawkey", "_tag", "cbkind", "_boxes")}
     if c.get("op") == "tree":
         c["tree"] = expand_refs(c["tree"])
         c["ops"] = [[o[0], o[1], expand_refs(o[2])] if o[0] == "add_at" else [o[0], expand_refs(o[1])] if o[0] == "add" else o for o in c["ops"]]
